@@ -329,10 +329,10 @@ func runC11Global(c *Ctx, prop string) {
 // ---------------------------------------------------------------------------------------
 
 type poolInfo struct {
-	G       *ssa.Global
-	Gets    []*ssa.Call // Get calls
-	Puts    []*ssa.Call
-	Pooled  types.Type // asserted type
+	G      *ssa.Global
+	Gets   []*ssa.Call // Get calls
+	Puts   []*ssa.Call
+	Pooled types.Type // asserted type
 }
 
 func findPools(p *Prog) []*poolInfo {
@@ -1022,7 +1022,6 @@ func runC12Input(c *Ctx) {
 	c.Check(len(rm) == 0, "C12-INPUT", "valid", "rule-map-readonly", token.NoPos, fmt.Sprintf("%d functions reachable from Valid, none writes a rule map", len(fromValid)), strings.Join(rm, "; "))
 }
 
-
 // sliceRoots: where the backing array of a slice value can come from, looking back through
 // reslicing, appends, phis and loads of local variable cells (closure-captured locals).
 func sliceRoots(v ssa.Value) []string {
@@ -1128,7 +1127,6 @@ func describePtr(v ssa.Value) string {
 	}
 	return fmt.Sprintf("%T", v)
 }
-
 
 // rmFromCaller: can this rule-map value be one that a caller handed to the library (as opposed
 // to a map the library created itself with make / NewRule)? Fields are resolved through every
